@@ -176,7 +176,8 @@ Section RT.
                    aget (iarr r) idx = aget (iarr im) (pad_zeros (length (ishape im)) idx)) /\
       (forall i k, i < 4 -> k < 4 -> (mentry (iaff r) i k == mentry (iaff im) i k)%Q) /\
       islice r = islice im /\
-      (no_trailing_one (ishape im) dim -> ishape r = ishape im /\ idata r = idata im).
+      (no_trailing_one (ishape im) dim -> ishape r = ishape im /\ idata r = idata im) /\
+      (reduced (iaff im) -> iaff r = iaff im).
   Proof.
     intros Hwf H5 Hs Hn Hu. set (sh := ishape im) in *. set (A := iaff im) in *.
     destruct (split_law im dim ps im Hs Hwf) as (Hd & Hl & Hp). fold sh in Hd, Hl, Hp.
@@ -229,7 +230,7 @@ Section RT.
       rewrite <- Hl in Hi. rewrite (Hpiece _ Hi). destruct (Hp _ Hi) as (Epsh & _ & _ & Hpd & _).
       rewrite Hshape0. rewrite Hpd by (rewrite Epsh; exact Hsrc).
       f_equal. apply remerge_src; assumption. }
-    split; [exact Hget|]. split; [|split].
+    split; [exact Hget|]. split; [|split; [|split]].
     - (* affine *)
       assert (Hw0 : is_shape 4 4 (iaff p0) = true) by (apply (Huni p0); rewrite Eps; left; reflexivity).
       destruct (merge_affine_law unitv ps (Some dim) r dim p0 rest Eps Hw0 Hres Hr) as [Hsp Hns].
@@ -267,6 +268,27 @@ Section RT.
       apply arr_ext; [exact Hrw | exact Hw | exact Es|].
       intros idx Hb. cbn [iarr ashape] in Hb. rewrite (Hget idx Hb). f_equal.
       unfold pad_zeros. rewrite <- Es, (in_bounds_length _ _ Hb), Nat.sub_diag. apply app_nil_r.
+    - (* reduced entries: the affine itself is reproduced *)
+      intros Hred.
+      assert (Hw0 : is_shape 4 4 (iaff p0) = true) by (apply (Huni p0); rewrite Eps; left; reflexivity).
+      destruct (merge_affine_law unitv ps (Some dim) r dim p0 rest Eps Hw0 Hres Hr) as [Hsp Hns].
+      assert (Ep0 : iaff p0 = A).
+      { pose proof (split_first_affine im dim ps im Hs ltac:(lia)) as G. rewrite Eps in G at 1. exact G. }
+      destruct (Nat.lt_ge_cases dim 3) as [H3|H3]; [|rewrite (Hns H3); exact Ep0].
+      destruct (Hsp H3) as (Hn2 & Hcol & Hoth).
+      destruct Hwf as [_ HwA]. destruct Hrwf as [_ Hwr].
+      apply mat44_ext; [exact Hwr | exact HwA|]. intros i k Hi Hk.
+      destruct (Nat.eq_dec k dim) as [->|Hkd]; [destruct (Nat.lt_ge_cases i 3) as [Hi3|Hi3]|].
+      + destruct (Hp 0 ltac:(lia)) as (_ & _ & _ & _ & Hsp0 & _). destruct (Hp 1 ltac:(lia)) as (_ & _ & _ & _ & Hsp1 & _).
+        rewrite <- (Hpiece 0 ltac:(lia)) in Hsp0. rewrite <- (Hpiece 1 ltac:(lia)) in Hsp1.
+        replace (nth 0 ps p0) with p0 in Hsp0 by (rewrite Eps; reflexivity).
+        pose proof (shifted_trans_diff A dim 0 _ _ (Hsp0 H3) (Hsp1 H3)) as Htd0.
+        assert (Em : mentry (iaff r) i dim = nth i (col3 (iaff r) dim) 0%Q) by (destruct i as [|[|[|i]]]; try lia; reflexivity).
+        assert (Ea : mentry A i dim = nth i (col3 A dim) 0%Q) by (destruct i as [|[|[|i]]]; try lia; reflexivity).
+        rewrite Em, Hcol. change 0%Q with (Qred 0) at 1. rewrite map_nth.
+        rewrite (Qred_complete _ _ (veq_nth _ _ Htd0 i)), <- Ea. apply reduced_entry, Hred.
+      + rewrite Hoth by (try assumption; lia). rewrite Ep0. reflexivity.
+      + rewrite Hoth by (try assumption; lia). rewrite Ep0. reflexivity.
   Qed.
 End RT.
 
